@@ -287,17 +287,11 @@ class AbstractBasis:
         if w.shape[0] != self.N:
             raise ValueError("Input array has wrong size.")
 
-        if isinstance(self.elem, ElementVector):
-            # ElementVector shouldn't get split here: workaround
-            refs: List[Tuple[ndarray, 'AbstractBasis']] = [(np.array([]),
-                                                            self)]
-        else:
-            refs = self.split(w)
         dfs: List[DiscreteField] = []
 
-        # loop over solution components
-        for c in range(len(refs)):
-            ref = refs[c][1].basis[0][0].astuple
+        # loop over solution components, as many as the basis functions have
+        for c in range(len(self.basis[0])):
+            ref = self.basis[0][c].astuple
 
             def linear_combination(n):
                 """Global discrete function at quadrature points."""
